@@ -16,7 +16,7 @@ RULE = ("hermetic environments of 0-20 variables (names from [A-Za-z0-9_] incl. 
 
 TIERS = {
     "quick": {"runs": 1500, "wall_cap": 200},
-    "thorough": {"runs": 20000, "wall_cap": 3300, "reexecute": 100},
+    "thorough": {"runs": 60000, "wall_cap": 3300, "reexecute": 100},
 }
 FAULT_KINDS = []
 PROBES = ["unset_strict", "unset_nonstrict", "secret_planted_and_unset_read", "quoted_reserved_name", "digit_initial_name", "non_ascii_value",
